@@ -29,7 +29,7 @@ Fresh2(s, mm) ==
   /\ req' = <<>> /\ resp' = <<>> /\ evt' = <<>> /\ c2s' = 0 /\ s2c' = 0 /\ outstanding' = 0 /\ pollOut' = FALSE
   /\ fc' = 0 /\ fcMax' = 1 /\ prio' = 1 /\ disp' = 0 /\ cur' = <<>> /\ got' = 0 /\ pendOut' = FALSE
   /\ accReq' = <<>> /\ dlvReq' = <<>> /\ accResp' = <<>> /\ dlvResp' = <<>> /\ accEvt' = <<>> /\ dlvEvt' = <<>>
-  /\ last' = 0
+  /\ last' = 0 /\ stall' = <<>>
 Connect(s, mm, smm) ==
   /\ mm > 0 /\ smm = mm        \* both sides agree on the negotiated maximum
   /\ Fresh2(s = 1, mm)
@@ -39,6 +39,7 @@ TDo(ev) ==
   CASE ev.e = "Connect"    -> Connect(a[1], a[2], r[1])
     [] ev.e = "CSend"      -> CSend(a[1], r[1])
     [] ev.e = "CSendv"     -> CSend(a[1], r[1])
+    [] ev.e = "CStall"     -> CStall(a[1])
     [] ev.e = "CSendvRecv" -> CSendvRecv(a[1], r)
     [] ev.e = "CRecv"      -> CRecv(r)
     [] ev.e = "CEvRecv"    -> CEvRecv(r)
